@@ -499,6 +499,17 @@ def respell(f_new, f_ref):
                 return m
         return None
 
+    ref_conjuncts = {_norm(v) for s_ in ast.walk(f_ref) if isinstance(s_, ast.If) and isinstance(s_.test, ast.BoolOp) and isinstance(s_.test.op, ast.And)
+                     for v in s_.test.values}
+
+    pairs0 = _pair_headers(f_new, f_ref)[0]
+
+    def _paired_same(n):
+        """the `if` aligns with an `if` of the reference function that has the same test (a test that merely occurs somewhere
+        in the reference function - in a nested helper, say - does not count)"""
+        r = pairs0.get(id(n))
+        return isinstance(r, ast.If) and _norm(r.test) == _norm(n.test)
+
     class T(ast.NodeTransformer):
         def visit_UnaryOp(self, n):
             self.generic_visit(n)
@@ -521,13 +532,15 @@ def respell(f_new, f_ref):
         def visit_If(self, n):
             self.generic_visit(n)
             # `if a: if b: BODY` <-> `if a and b: BODY` (no else anywhere): the form the reference uses
-            if not n.orelse and _norm(n.test) not in ref_tests:
+            if not n.orelse and (_norm(n.test) not in ref_tests or not _paired_same(n)):
                 if len(n.body) == 1 and isinstance(n.body[0], ast.If) and not n.body[0].orelse:
                     a_, b_ = n.test, n.body[0].test
                     vals = (a_.values if isinstance(a_, ast.BoolOp) and isinstance(a_.op, ast.And) else [a_]) + \
                            (b_.values if isinstance(b_, ast.BoolOp) and isinstance(b_.op, ast.And) else [b_])
                     comb = ast.copy_location(ast.BoolOp(op=ast.And(), values=vals), n.test)
-                    if _norm(comb) in ref_tests:
+                    # ... also when neither test is a test of the reference by itself but their parts are conjuncts of one:
+                    # `if A: if B: if C:` against a reference `if A and C:` becomes `if A and B and C:`
+                    if _norm(comb) in ref_tests or (_norm(b_) not in ref_tests and any(_norm(v) in ref_conjuncts for v in vals)):
                         n_[0] += 1
                         return ast.copy_location(ast.If(test=comb, body=n.body[0].body, orelse=[]), n)
                 elif isinstance(n.test, ast.BoolOp) and isinstance(n.test.op, ast.And):
@@ -627,6 +640,12 @@ def respell(f_new, f_ref):
     ref_stmts = {_norm(st_) for st_ in ast.walk(f_ref) if isinstance(st_, ast.Assign)}
     ref_loops = {_norm(st_.target) + " in " + _norm(st_.iter) for st_ in ast.walk(f_ref) if isinstance(st_, ast.For)}
 
+    ref_stored = {x.id for x in ast.walk(f_ref) if isinstance(x, ast.Name) and isinstance(x.ctx, ast.Store)}
+    ref_comp_names = {(st_.targets[0].id, type(st_.value)) for st_ in ast.walk(f_ref)
+                      if isinstance(st_, ast.Assign) and len(st_.targets) == 1 and isinstance(st_.targets[0], ast.Name) and isinstance(st_.value, (ast.ListComp, ast.SetComp, ast.DictComp))}
+    _accum = {x.func.value.id for x in ast.walk(f_ref) if isinstance(x, ast.Call) and isinstance(x.func, ast.Attribute) and x.func.attr in ("append", "add", "extend", "update", "insert")
+              and isinstance(x.func.value, ast.Name)} | {x.value.id for x in ast.walk(f_ref) if isinstance(x, ast.Subscript) and isinstance(x.ctx, ast.Store) and isinstance(x.value, ast.Name)}
+    ref_comp_names = {(n0, k0) for n0, k0 in ref_comp_names if n0 not in _accum}
     ref_comp_shapes = {}
     for st_ in ast.walk(f_ref):
         if isinstance(st_, ast.Assign) and isinstance(st_.value, (ast.ListComp, ast.SetComp, ast.DictComp)) and len(st_.targets) == 1 and isinstance(st_.targets[0], ast.Name):
@@ -673,17 +692,50 @@ def respell(f_new, f_ref):
             c = as_comp(lst[i], lst[i + 1])
             if c is not None:
                 ast.fix_missing_locations(c)
-                if _norm(c) in ref_stmts:
+                # the loop variables must be private to the loop (a comprehension does not leak them)
+                tg = _comp_targets(c.value)
+                inside = {id(x) for x in ast.walk(lst[i + 1])}
+                # a use elsewhere is harmless when it reads another loop's binding of the name: inside the body of a `for` (or a
+                # comprehension) that has the name as its target
+                covered = set()
+                for o_ in ast.walk(f_new):
+                    if isinstance(o_, (ast.For, ast.AsyncFor)) and o_ is not lst[i + 1]:
+                        t_names = {x.id for x in ast.walk(o_.target) if isinstance(x, ast.Name)}
+                        for b_ in o_.body:
+                            for x in ast.walk(b_):
+                                if isinstance(x, ast.Name) and x.id in t_names:
+                                    covered.add(id(x))
+                        for x in ast.walk(o_.target):
+                            covered.add(id(x))
+                    elif isinstance(o_, (ast.ListComp, ast.SetComp, ast.GeneratorExp, ast.DictComp)):
+                        t_names = {x.id for g_ in o_.generators for x in ast.walk(g_.target) if isinstance(x, ast.Name)}
+                        for x in ast.walk(o_):
+                            if isinstance(x, ast.Name) and x.id in t_names:
+                                covered.add(id(x))
+                # names bound by a nested function / lambda (its parameters, its own locals) are other variables
+                for o_ in ast.walk(f_new):
+                    if o_ is not f_new and isinstance(o_, FUNC + (ast.Lambda,)):
+                        a_ = o_.args
+                        bound_ = {p_.arg for p_ in a_.posonlyargs + a_.args + a_.kwonlyargs} | {p_.arg for p_ in (a_.vararg, a_.kwarg) if p_ is not None}
+                        if not isinstance(o_, ast.Lambda):
+                            bound_ |= {x.id for x in ast.walk(o_) if isinstance(x, ast.Name) and isinstance(x.ctx, ast.Store)}
+                        for x in ast.walk(o_):
+                            if isinstance(x, ast.Name) and x.id in bound_:
+                                covered.add(id(x))
+                outside = {x.id for st_ in ast.walk(f_new) if isinstance(st_, (ast.stmt, ast.ExceptHandler)) and id(st_) not in inside
+                           for x in _stmt_own_names(st_, None) if id(x) not in covered}
+                if tg & outside:
+                    c = None
+            if c is not None:
+                if _norm(c) in ref_stmts or c.targets[0].id not in ref_stored or (c.targets[0].id, type(c.value)) in ref_comp_names:
+                    # the reference has this comprehension, or builds this variable by a comprehension of the same kind (and
+                    # nowhere by accumulation) - or the accumulator is a variable the reference function does not have at all:
+                    # new code is brought to the comprehension form (the one the rules read as an expression)
                     lst[i:i + 2] = [c]
                     n_[0] += 1
                     continue
-                # the same comprehension up to the names of its own variables and the spelling of its comparisons: the loop
-                # variables must then be private to the loop (a comprehension does not leak them)
-                tg = _comp_targets(c.value)
-                inside = {id(x) for x in ast.walk(lst[i + 1])}
-                outside = {x.id for st_ in ast.walk(f_new) if isinstance(st_, (ast.stmt, ast.ExceptHandler)) and id(st_) not in inside
-                           for x in _stmt_own_names(st_, None)}
-                if not (tg & outside):
+                # the same comprehension up to the names of its own variables and the spelling of its comparisons
+                if True:
                     sh, nm = _shape(c, tg)
                     hit = ref_comp_shapes.get(sh)
                     if hit is not None and len(hit) == 1:
